@@ -353,6 +353,9 @@ func escapesOrLoopsWithout(from ssa.Instruction, pass func(ssa.Instruction) bool
 			return nil
 		}
 	}
+	if _, isRet := b.Instrs[len(b.Instrs)-1].(*ssa.Return); isRet {
+		return []*ssa.BasicBlock{b}
+	}
 	blocked := func(x *ssa.BasicBlock) bool {
 		for _, in := range x.Instrs {
 			if pass(in) {
